@@ -60,6 +60,74 @@ var probes = []probe{
 	{"ZSet.GetRank", func(db *redka.DB) (bool, error) { _, _, err := db.ZSet().GetRank("bk", "v"); return nf(err) }, mkZSet},
 }
 
+// write probes: an operation that needs the key to exist, called in the very millisecond the
+// key expires (the call starts at or after the instant): it must treat the key as absent.
+type wprobe struct {
+	name    string
+	mk      func(db *redka.DB)
+	present func(db *redka.DB) (bool, error) // did the operation treat key "bk" as existing?
+}
+
+func mkNum(db *redka.DB) { _ = db.Str().Set("bk", "5") }
+
+var wprobes = []wprobe{
+	{"Key.Persist", mkStr, func(db *redka.DB) (bool, error) { return nf(db.Key().Persist("bk")) }},
+	{"Key.Expire", mkList, func(db *redka.DB) (bool, error) { return nf(db.Key().Expire("bk", time.Hour)) }},
+	{"Key.Rename", mkSet, func(db *redka.DB) (bool, error) { return nf(db.Key().Rename("bk", "bk2")) }},
+	{"Key.RenameNotExists", mkHash, func(db *redka.DB) (bool, error) {
+		_, err := db.Key().RenameNotExists("bk", "bk3")
+		return nf(err)
+	}},
+	{"Key.Delete", mkZSet, func(db *redka.DB) (bool, error) { n, err := db.Key().Delete("bk"); return n > 0, err }},
+	{"Str.Incr", mkNum, func(db *redka.DB) (bool, error) { v, err := db.Str().Incr("bk", 1); return v == 6, err }},
+	{"Str.SetWith.IfExists", mkStr, func(db *redka.DB) (bool, error) {
+		out, err := db.Str().SetWith("bk", "new").IfExists().Run()
+		return out.Updated, err
+	}},
+	{"List.Set", mkList, func(db *redka.DB) (bool, error) { return nf(db.List().Set("bk", 0, "x")) }},
+	{"List.PopBack", mkList, func(db *redka.DB) (bool, error) { _, err := db.List().PopBack("bk"); return nf(err) }},
+	{"List.InsertBefore", mkList, func(db *redka.DB) (bool, error) { _, err := db.List().InsertBefore("bk", "v", "x"); return nf(err) }},
+	{"List.PushBack", mkList, func(db *redka.DB) (bool, error) { n, err := db.List().PushBack("bk", "w"); return n == 2, err }},
+	{"Set.Delete", mkSet, func(db *redka.DB) (bool, error) { n, err := db.Set().Delete("bk", "v"); return n > 0, err }},
+	{"Set.Pop", mkSet, func(db *redka.DB) (bool, error) { _, err := db.Set().Pop("bk"); return nf(err) }},
+	{"Set.Add", mkSet, func(db *redka.DB) (bool, error) { n, err := db.Set().Add("bk", "v"); return n == 0, err }},
+	{"Hash.Delete", mkHash, func(db *redka.DB) (bool, error) { n, err := db.Hash().Delete("bk", "f"); return n > 0, err }},
+	{"Hash.SetNotExists", mkHash, func(db *redka.DB) (bool, error) { ok, err := db.Hash().SetNotExists("bk", "f", "w"); return !ok, err }},
+	{"ZSet.Delete", mkZSet, func(db *redka.DB) (bool, error) { n, err := db.ZSet().Delete("bk", "v"); return n > 0, err }},
+	{"ZSet.Incr", mkZSet, func(db *redka.DB) (bool, error) { v, err := db.ZSet().Incr("bk", "v", 1); return v == 2, err }},
+}
+
+func runC10WriteBoundary(db *redka.DB, rounds int) {
+	for round := 0; round < rounds && len(sum.Failures) == 0; round++ {
+		for _, p := range wprobes {
+			_, _ = db.Key().Delete("bk", "bk2", "bk3")
+			p.mk(db)
+			e := time.Now().UnixMilli() + 12
+			if err := db.Key().ExpireAt("bk", time.UnixMilli(e)); err != nil {
+				fail("harness", "ExpireAt: "+err.Error(), nil)
+				return
+			}
+			for time.Now().UnixMilli() < e {
+			}
+			t0 := time.Now().UnixMilli()
+			present, err := p.present(db)
+			sum.Cases++
+			if err != nil {
+				fail("c10-boundary-error", fmt.Sprintf("%s failed at the expiry boundary: %v", p.name, err), nil)
+				return
+			}
+			if present {
+				fail("c10-boundary", fmt.Sprintf("%s treated the key as existing although the call started at %d, at or after its expiry instant %d", p.name, t0, e), p.name)
+				return
+			}
+			count("write_boundary_probes")
+			if t0 == e {
+				count("write_probes_started_inside_the_expiry_millisecond")
+			}
+		}
+	}
+}
+
 func runC10Boundary(seed int64, n int) {
 	x, err := hx.OpenMem("c10b")
 	if err != nil {
@@ -116,5 +184,8 @@ func runC10Boundary(seed int64, n int) {
 			_ = before
 			_ = after
 		}
+	}
+	if len(sum.Failures) == 0 {
+		runC10WriteBoundary(db, 3*rounds)
 	}
 }
